@@ -16,6 +16,20 @@ COMMON_NOTE = (
 
 # id -> (level category, level text, technique, design ref, extra note)
 CLAIMED = {
+    "C15": (
+        "proof",
+        "Inverse-pair contracts: from_document(get_raw(r)) == r for ESFResult/EXSResult on symbolic entries; load_tar(dump_tar(o)), load_yaml(dump_yaml(o)) and the mixed sequences tar>yaml, yaml>tar, tar>yaml>tar, each once and twice, return an Output with the identical abstract view (keys, cards, metadata, kinematics, order keys as tuples, result classes, entry-wise identical symbolic values and errors) for ESF / EXS / None / empty observables and their mixes. The I/O libraries (yaml incl. its safe/unsafe asymmetry, npz, tar, tempfile, pathlib) are in-memory inverse-pair contract stubs; the restructuring code runs for real.",
+        "contract-based deductive verification: symbolic execution of the real (de)serialisers against assumed inverse-pair contracts of the I/O libraries + ratfun identity per entry",
+        "DESIGN 4 C15",
+        "A-io assumed (instance-checked against the real libraries as a bounded stand-in, not counted); shapes bounded to 0..3 points / 0..3 orders, values unbounded.",
+    ),
+    "C17": (
+        "proof",
+        "ESFResult/EXSResult.apply_pdf with uninterpreted PDF, alpha_s, alpha_qed and symbolic Q2, xiR, xiF, operator entries equals sum_o (alpha_s(sqrt(Q2) xiR)/4pi)^o0 alpha(..)^o1 ln(1/xiR^2)^o2 ln(1/xiF^2)^o3 sum_{a,j} v_o[a,j] xfxQ2(pid_a,x_j,Q2 xiF^2)/x_j over the flavours the PDF provides (same for errors; y echoed for cross sections; Q2 unset -> ValueError); linearity lemma; Output-level iteration over exactly the valid non-None observables with pids / grid / couplings passed unchanged; apply_pdf_theory builds the coupling from the card (reference value, scale, nf, order, squared masses and ratios) and uses nf_to = NfFF in fixed-flavour schemes, nf_default(muR^2, atlas) in ZM-VFNS, ValueError otherwise.",
+        "contract-based deductive verification: symbolic execution with uninterpreted PDF/couplings + ratfun normaliser",
+        "DESIGN 4 C17",
+        "eko Couplings/Atlas are recording stubs (solver not covered); array shapes 1..3.",
+    ),
     "C01": (
         "proof",
         "Contracts on the three quad_ker integrands, conv.convolution (all 32 combinations of reg/sing/loc presence, interpolation mode and support position: empty-domain/below-support give exactly (0,0) without quadrature; otherwise value = QUAD + p_j(x) loc(x) with limits x(1+eps), min(max_i x/b_i,1)(1-eps), breakpoints at every area border, and the captured integrand called with the captured argument tuple on a symbolic z equals reg f(x/z)/z + sing (f(x/z)/z - f(x))), convolve_vector / convolve_operator (element-wise maps, lifted to any length by AST loop lemmas), the raw-order part of compute_local (sum over kernels of partons x convolution point x convolution, order window, None orders, |partons| for errors, cached second call) and the convolution point of every partonic-channel class.",
